@@ -19,7 +19,10 @@
 (define bitwise-ior  (make-nary bit-ior   0))
 (define bitwise-xor  (make-nary bit-xor   0))
 
-(define bitwise-eqv  (bitwise-complement (make-nary bit-xor -1)))
+;; eqv is associative with identity -1: (eqv a b c) = (eqv (eqv a b) c),
+;; which is not the complement of the n-ary xor unless there are two arguments
+(define bitwise-eqv
+  (make-nary (lambda (i j) (bitwise-not (bit-xor i j))) -1))
 (define bitwise-nand (bitwise-complement (make-nary bit-and  0)))
 (define bitwise-nor  (bitwise-complement (make-nary bit-ior -1)))
 
